@@ -184,6 +184,10 @@ def clusterOp (toks : List String) : String :=
   | some "c.iso" => if validStore a then "ok" else "bad-op"
   | some "c.heal" => "ok"
   | some "c.wait" => "ok"
+  | some "c.hold" => if validStore a && validStore b then "ok" else "bad-op"
+  | some "c.release" => "ok"
+  | some "c.elect" => if validRegion a then "ok" else "bad-op"
+  | some "c.proposeL" => if validRegion a then "ok" else "bad-op"
   | some "c.restart" => if validStore a then "ok" else "bad-op"
   | some "c.propose" => if validStore a && validRegion b then "ok" else "bad-op"
   | some "c.read" => if validStore a && validRegion b then "ok" else "bad-op"
